@@ -66,6 +66,16 @@ def features(prog):
     return "+".join(sorted(kinds)), "+".join(sorted(leaves))
 
 
+_ACTION_OF = {"try": "NestTry", "tf": "NestTryFin", "with": "NestWith", "loop": "NestLoop", "seq": "NestSeq", "raise": "InjRaise",
+              "raise-from": "InjRaiseFrom", "reraise": "InjReraise", "ret": "InjReturn", "brk": "InjBreak", "cnt": "InjContinue",
+              "qpass": "InjQuiet", "qret": "InjQuiet"}
+
+
+def actions_of(prog):
+    kinds, leaves = features(prog)
+    return {_ACTION_OF[x.split("-")[0] if x.startswith("with") else x] for x in (kinds + "+" + leaves).split("+") if x}
+
+
 def classify(want, got):
     if isinstance(got, str):
         if got.startswith("CRASH") or got == "TIMEOUT":
@@ -98,17 +108,20 @@ def run(tier, seed):
     action_cov = collections.Counter()
     tot = collections.Counter()
     for cfg, desc in T["exhaustive"]:
-        r = core.tlc_or_die("ExcState", cfg=cfg, timeout=1500, workers=workers, coverage=True)
+        r = core.tlc_or_die("ExcState", cfg=cfg, timeout=1500, workers=workers)
         cov["tlc"].append(dict(r.summary(), config=desc))
         tot["states"] += r.generated
         tot["distinct"] += r.distinct
         if len(r.printed) != r.distinct:
             core.die("ExcState.tla published %d cases for %d distinct states (%s)" % (len(r.printed), r.distinct, cfg))
-        for a, (d, n) in r.coverage.items():
-            if a in ACTIONS:
-                action_cov[a] += d
         for c in r.printed:
-            progs.setdefault(lib_exc.prog_key(c["prog"]), dict(c, src=cfg))
+            k = lib_exc.prog_key(c["prog"])
+            if k not in progs:
+                progs[k] = dict(c, src=cfg)
+                # (TLC's -coverage is unusably slow on the recursive evaluator.)  A program that contains the statement
+                # an action introduces is a state that this action produced.
+                for a in actions_of(c["prog"]):
+                    action_cov[a] += 1
         del r
     n_exh = len(progs)
     scfg, sdepth, smax, stake, sdesc = T["sim"]
